@@ -55,10 +55,94 @@ fn pairs(p: &[&str]) -> Vec<(String, i64)> {
 }
 
 // ---------------------------------------------------------------------------------------------
+// Entry API (`Table::entry`, `TableLike::entry`): everything beyond `or_insert` and the classification
+// ---------------------------------------------------------------------------------------------
+
+const ENTRY_OPS: [&str; 6] = ["entrem", "entins", "entget", "entmut", "entwith", "entkey"];
+
+fn entry_op(e: Entry<'_>, p: &[&str]) -> String {
+    match p[0] {
+        "entrem" => match e {
+            Entry::Occupied(o) => slot(&o.remove()),
+            Entry::Vacant(_) => "vac".into(),
+        },
+        "entins" => match e {
+            Entry::Occupied(mut o) => {
+                let old = slot(&o.insert(value(num(p[2]))));
+                format!("{old}>{}", slot(o.get()))
+            }
+            Entry::Vacant(v) => format!("vac>{}", slot(v.insert(value(num(p[2]))))),
+        },
+        "entget" => match e {
+            Entry::Occupied(o) => format!("{}={}", o.key(), slot(o.get())),
+            Entry::Vacant(v) => format!("vac:{}", v.key()),
+        },
+        "entmut" => match e {
+            Entry::Occupied(mut o) => {
+                let old = slot(o.get_mut());
+                *o.get_mut() = value(num(p[2]));
+                format!("{old}>{}", slot(o.into_mut()))
+            }
+            Entry::Vacant(_) => "vac".into(),
+        },
+        "entwith" => slot(e.or_insert_with(|| value(num(p[2])))),
+        "entkey" => {
+            let k = e.key().to_string();
+            match e {
+                Entry::Occupied(_) => format!("occ:{k}"),
+                Entry::Vacant(_) => format!("vac:{k}"),
+            }
+        }
+        _ => "na".into(),
+    }
+}
+
+/// the same calls on `InlineTable::entry`: `InlineEntry` / `InlineOccupiedEntry` / `InlineVacantEntry`
+fn inline_entry_op(e: InlineEntry<'_>, p: &[&str]) -> String {
+    match p[0] {
+        "entrem" => match e {
+            InlineEntry::Occupied(o) => vtok(&o.remove()),
+            InlineEntry::Vacant(_) => "vac".into(),
+        },
+        "entins" => match e {
+            InlineEntry::Occupied(mut o) => {
+                let old = vtok(&o.insert(Value::from(num(p[2]))));
+                format!("{old}>{}", vtok(o.get()))
+            }
+            InlineEntry::Vacant(v) => format!("vac>{}", vtok(v.insert(Value::from(num(p[2]))))),
+        },
+        "entget" => match e {
+            InlineEntry::Occupied(o) => format!("{}={}", o.key(), vtok(o.get())),
+            InlineEntry::Vacant(v) => format!("vac:{}", v.key()),
+        },
+        "entmut" => match e {
+            InlineEntry::Occupied(mut o) => {
+                let old = vtok(o.get_mut());
+                *o.get_mut() = Value::from(num(p[2]));
+                format!("{old}>{}", vtok(o.into_mut()))
+            }
+            InlineEntry::Vacant(_) => "vac".into(),
+        },
+        "entwith" => vtok(e.or_insert_with(|| Value::from(num(p[2])))),
+        "entkey" => {
+            let k = e.key().to_string();
+            match e {
+                InlineEntry::Occupied(_) => format!("occ:{k}"),
+                InlineEntry::Vacant(_) => format!("vac:{k}"),
+            }
+        }
+        _ => "na".into(),
+    }
+}
+
+// ---------------------------------------------------------------------------------------------
 // Table
 // ---------------------------------------------------------------------------------------------
 
 fn table_op(t: &mut Table, p: &[&str]) -> String {
+    if ENTRY_OPS.contains(&p[0]) {
+        return entry_op(t.entry(p[1]), p);
+    }
     match p[0] {
         "ins" => opt(t.insert(p[1], value(num(p[2]))), |i| slot(&i)),
         "insf" => opt(t.insert_formatted(&Key::new(p[1]), value(num(p[2]))), |i| slot(&i)),
@@ -122,6 +206,9 @@ fn like_op(item: &mut Item, p: &[&str]) -> String {
         _ => {}
     }
     let t = item.as_table_like_mut().expect("table-like");
+    if ENTRY_OPS.contains(&p[0]) {
+        return entry_op(t.entry(p[1]), p);
+    }
     match p[0] {
         "ins" => guarded(|| opt(t.insert(p[1], value(num(p[2]))), |i| slot(&i))),
         "rem" => opt(t.remove(p[1]), |i| slot(&i)),
@@ -207,6 +294,9 @@ fn inline_op(item: &mut Item, p: &[&str]) -> String {
         _ => {}
     }
     let t = item.as_inline_table_mut().expect("inline table");
+    if ENTRY_OPS.contains(&p[0]) {
+        return inline_entry_op(t.entry(p[1]), p);
+    }
     match p[0] {
         "ins" => opt(t.insert(p[1], Value::from(num(p[2]))), |v| vtok(&v)),
         "insf" => opt(t.insert_formatted(&Key::new(p[1]), Value::from(num(p[2]))), |v| vtok(&v)),
